@@ -151,6 +151,9 @@ def block(draw, name, nrexcl, syntax, names=None, max_atoms=5, resname=None, non
                         if it["params"][0] == "2":
                             it["params"] = ["9", it["params"][1], it["params"][2], "2"]
                         inter.append(it)
+                    if draw(st.integers(0, 2)) == 0:
+                        # two terms with the very same parameters are two terms all the same (their energies add up)
+                        inter[-1]["params"] = list(inter[-nterm]["params"])
     if natoms >= 2 and nonbond_sections:
         for sec in ("pairs", "exclusions", "position_restraints", "virtual_sites2"):
             if draw(st.integers(0, 5)) == 0:
@@ -216,6 +219,7 @@ def link(draw, blocks, label_pool, allow_replace=True, allow_atype_sel=True, pre
         link_resnames = sorted(set(link_resnames) | {extra})
     distinct = len(set(res_of_order)) > 1
     atoms = {}
+    oi_of = {}
 
     def atom_key(oi):
         blk = by_name[res_of_order[oi]]
@@ -224,6 +228,7 @@ def link(draw, blocks, label_pool, allow_replace=True, allow_atype_sel=True, pre
         else:
             aname = draw(st.sampled_from([a["name"] for a in blk["atoms"]]))
         key = order_prefix(orders[oi]) + aname
+        oi_of.setdefault(key, oi)
         if key not in atoms:
             attrs = {}
             if distinct or draw(st.integers(0, 5)) == 0:
@@ -380,9 +385,25 @@ def link(draw, blocks, label_pool, allow_replace=True, allow_atype_sel=True, pre
             comp[find(split_order(a))] = find(split_order(b))
         if len({find(x) for x in comp}) == 1:
             inter = []
-    return {"resname": "|".join(link_resnames),
+    link_resname = "|".join(link_resnames)
+    if nres > 1 and not non_edges and not patterns and draw(st.integers(0, 7)) == 0:
+        # a link that names only one of its residues (no link-wide resname, a resname on the atoms of one residue):
+        # the other residues of the link may have any name
+        named = draw(st.integers(0, nres - 1))
+        if any(oi_of.get(k, 0) == named for k in atoms):
+            for k in atoms:
+                atoms[k] = {a: v for a, v in atoms[k].items() if a != "resname"}
+                if oi_of.get(k, 0) == named:
+                    atoms[k]["resname"] = res_of_order[named]
+            link_resname = None
+    log = None
+    if not any("replace" in v for v in atoms.values()) and draw(st.integers(0, 7)) == 0:
+        # a message the force field attaches to the link ([ info ] / [ warning ] / [ error ] section): it is shown
+        # wherever the link applies and changes nothing else
+        log = [draw(st.sampled_from(["info", "warning", "warning", "error"])), "this link is a rough guess"]
+    return {"resname": link_resname,
             "atoms": [{"key": k, "attrs": v} for k, v in atoms.items()],
-            "inter": inter, "edges": edges, "non_edges": non_edges, "patterns": patterns}
+            "inter": inter, "edges": edges, "non_edges": non_edges, "patterns": patterns, "log": log}
 
 
 # ----------------------------------------------------------------------------
@@ -614,7 +635,8 @@ def case(draw, with_links=True, max_res=8, mixed_nrexcl=False, routes=("json", "
             for a in b["atoms"]:
                 a["resname"] = ren(a["resname"])
         for lnk in links:
-            lnk["resname"] = ren(lnk["resname"])
+            if lnk["resname"] is not None:
+                lnk["resname"] = ren(lnk["resname"])
             for at in lnk["atoms"]:
                 if "resname" in at["attrs"]:
                     at["attrs"] = dict(at["attrs"], resname=ren(at["attrs"]["resname"]))
@@ -661,7 +683,7 @@ def render_ff_link(lnk):
     """Per-atom attributes are repeated inline at every mention inside interactions
     (vermouth rejects a mention whose attributes differ from the first definition);
     the [ atoms ] section is used for atoms that carry a `replace`."""
-    lines = ["[ link ]", f"resname {json.dumps(lnk['resname'])}"]
+    lines = ["[ link ]"] + ([f"resname {json.dumps(lnk['resname'])}"] if lnk["resname"] is not None else [])
     if lnk.get("molmeta"):
         lines += ["[ molmeta ]", lnk["molmeta"]]
     attrs_of = {a["key"]: a["attrs"] for a in lnk["atoms"]}
@@ -696,6 +718,8 @@ def render_ff_link(lnk):
         lines.append("[ patterns ]")
         for pat in lnk["patterns"]:
             lines.append(" ".join(f"{k} {_attrs_json(a)}" if a else k for k, a in pat))
+    if lnk.get("log"):
+        lines += [f"[ {lnk['log'][0]} ]", lnk["log"][1]]
     return "\n".join(lines) + "\n"
 
 
@@ -855,9 +879,29 @@ def run_gen_params(spec, ctx, outname="out.itp", capture=True):
         run.captured["molecule"] = molecule
         return orig_write(molecule, *args, **kw)
 
+    orig_mods = gen_itp.ApplyModifications
+
+    def mods_wrapper(*args, **kw):
+        proc = orig_mods(*args, **kw)
+        inner = proc.run_molecule
+
+        def run_molecule(meta_molecule):
+            result = inner(meta_molecule)
+            # links and modifications are applied: this is the molecule that was built. Its interaction lines are
+            # noted down as they are now (section, atoms, parameters, guard)
+            mol = result.molecule
+            run.captured["built_lines"] = sorted(
+                (sec, tuple(str(a) for a in it.atoms), tuple(str(p_) for p_ in it.parameters),
+                 str((it.meta or {}).get("ifdef")), str((it.meta or {}).get("ifndef")))
+                for sec, items in mol.interactions.items() for it in items)
+            return result
+        proc.run_molecule = run_molecule
+        return proc
+
     if capture:
         gen_itp.find_missing_edges = find_wrapper
         vitp.write_molecule_itp = write_wrapper
+        gen_itp.ApplyModifications = mods_wrapper
     try:
         gen_itp.gen_params(outpath=out, **kwargs)
     except Exception as err:  # classified by the caller
@@ -865,6 +909,7 @@ def run_gen_params(spec, ctx, outname="out.itp", capture=True):
     finally:
         gen_itp.find_missing_edges = orig_find
         vitp.write_molecule_itp = orig_write
+        gen_itp.ApplyModifications = orig_mods
     run.out_exists = out.exists()
     if run.out_exists:
         run.text = out.read_text()
